@@ -348,8 +348,8 @@ Definition wstep (w : world) (op : wop) : world * list weff :=
         let '(l1, o1) := if l_closed (p_l q) then (p_l q, []) else read_event h maxdig (p_l q) last in
         let q1 := set_l q l1 in
         let '(w1, f1) := route_outs (set_proc w pi i q1) pi i o1 in
+        (* a write error at drain() is caught there (handle_error closes the dispatcher) *)
         match write_event q1 wr with
-        | (q2, FErr) => (set_proc w1 pi i q2, f1 ++ [ERaise])
         | (q2, _) =>
           let w2 := set_proc w1 pi i q2 in
           (* change_state: the process object is still alive while it notifies *)
